@@ -14,6 +14,9 @@ import (
 // height. Every vote the node posts is compared with all it posted before.
 const nestMarker = -1
 
+// nestBFSMarker: the same world searched exhaustively (thorough), restricted to its first 16 events.
+const nestBFSMarker = -2
+
 var nestW *chainlab.World
 
 func nestWorld() *chainlab.World {
@@ -35,6 +38,12 @@ func nestWorld() *chainlab.World {
 	w.AddBlockEvents()
 	w.AddVote(1, 0, a[4])
 	w.AddVote(2, 0, a[4])
+	// validator 3 (adversarial): a long vote root>a6 and votes that lie strictly inside it: a2>a4 (one epoch, from the
+	// direct parent checkpoint) as a message, and b2>b4 carried in the header of the fork block b4
+	w.AddVote(3, 0, a[6])    // 16
+	w.AddVote(3, a[2], a[4]) // 17
+	b2, b4 := 6+2, 6+4       // block indices of b2, b4 (a1..a6 = 1..6, b1..b8 = 7..14)
+	w.Events = append(w.Events, chainlab.Event{Kind: chainlab.EvBlockSL, Block: b4, Src: b2, Signers: []int{3}, Name: "B:b4+sig3(b2>b4)"}) // 18
 	nestW = w
 	return w
 }
@@ -42,14 +51,15 @@ func nestWorld() *chainlab.World {
 // nest: quick = the in-order deliveries with the two foreign votes at every position after a4 (flat);
 // thorough = BFS over all interleavings of the two branches and the votes.
 func nest(run *ev.Run, spec *xplore.Spec, thorough bool) {
-	w := nestWorld()
+	_ = nestWorld()
 	if thorough {
-		spec.Root = []int{nestMarker}
-		spec.MaxDepth = len(w.Events) + 1
+		// the search uses the blocks and the two votes root>a4 only (events 0..15); the adversarial votes of
+		// validator 3 are covered by the flat histories below in both tiers
+		spec.Root = []int{nestBFSMarker}
+		spec.MaxDepth = 17
 		st := xplore.BFS(run, spec)
 		spec.Root = nil
-		run.Set("own_vote_nesting_world", map[string]interface{}{"mode": "BFS over all interleavings of a1..a6, b1..b8 and the votes V1,V2 root>a4", "states": st.States, "transitions": st.Transitions, "exhaustive": st.Exhaustive})
-		return
+		run.Set("own_vote_nesting_search", map[string]interface{}{"mode": "BFS over all interleavings of a1..a6, b1..b8 and the votes V1,V2 root>a4", "states": st.States, "transitions": st.Transitions, "exhaustive": st.Exhaustive})
 	}
 	// event indices: blocks a1..a6 = 0..5, b1..b8 = 6..13, votes = 14, 15
 	var items [][]int
@@ -80,6 +90,12 @@ func nest(run *ev.Run, spec *xplore.Spec, thorough bool) {
 	// branch b first up to b6, then branch a with the votes, then b7, b8
 	h := []int{nestMarker, 6, 7, 8, 9, 10, 11, 0, 1, 2, 3, 14, 15, 4, 5, 12, 13}
 	items = append(items, h)
+	// a foreign validator's long vote and a vote inside it, in both orders, by message and by header
+	items = append(items,
+		[]int{nestMarker, 0, 1, 2, 3, 4, 5, 16, 17},
+		[]int{nestMarker, 0, 1, 2, 3, 4, 5, 17, 16},
+		[]int{nestMarker, 0, 1, 2, 3, 4, 5, 16, 6, 7, 8, 18},
+		[]int{nestMarker, 0, 1, 2, 3, 4, 5, 6, 7, 8, 18, 16})
 	st := xplore.Flat(run, spec, items)
 	run.Set("own_vote_nesting_world", map[string]interface{}{"mode": "flat: in-order deliveries, the foreign votes at every position after a4, branch b before or after branch a", "histories": len(items), "transitions": st.Transitions})
 }
